@@ -62,6 +62,7 @@ def run(chk, repo):
     chk.attempt(tables_agree, chk, repo, repo.module(DECODERS))
     chk.attempt(language_evaluation, chk, repo)
     chk.attempt(grammar_rules, chk, repo, covered_by="language_evaluation", rules=("C15-L1", "C15-L2", "C15-L3", "C15-L4", "C15-L5", "C15-L6"))
+    chk.attempt(observation_points, chk, repo)
     from .c13 import groupname_injective
     chk.rule("C15-L7", "the image group name is unique per (polarisation, scan): exhaustive over the 55 combinations the grammar admits", 2)
     chk.attempt(groupname_injective, chk, repo, "C15-L7")
@@ -247,6 +248,69 @@ def language_evaluation(chk, repo):
                             "what": f"{stats['valid']} composed identifiers decode to their table meanings, {stats['nearmiss']} near misses / impossible dates raise ValueError ({'full' if thorough else 'strided'} cross product of the tables; {len(dates)} dates)"})
     chk.samples.append({"rule": "C15-L8", "where": mod.relpath, "obligation": {"composed identifiers": stats["valid"], "near misses": stats["nearmiss"], "dates": len(dates), "product ids": len(chosen)}})
     chk.count("identifiers_evaluated", stats["valid"] + stats["nearmiss"])
+
+
+def observation_points(chk, repo):
+    """C15-L10: the identifiers where the tree shows them: the section transformers of the summary reader (summary.transform_summary
+    on a model summary whose product id / scene id is the identifier under test) are evaluated: a valid id surfaces decoded under
+    /summary/product_specification (/summary/scene_specification), an id outside the language raises ValueError instead of
+    surfacing undecoded"""
+    from collections import OrderedDict
+    from ..repeval import from_shape, Undecided
+    from ..shapes import Const, DictS, Interp, Obj, ShapeError, _Raise
+    chk.rule("C15-L10", "summary sections evaluated: a valid product / scene id surfaces decoded, one outside the language raises ValueError (it never surfaces as raw text)", 15)
+    sm = repo.module("ceos_alos2.summary")
+    dm = repo.module(DECODERS)
+    tables = {g: _literal_table(dm, t) for g, t in GROUP_TABLE.items()}
+    where = f"{sm.relpath}:transform_summary"
+    I = Interp(repo)
+    sc = I.module_scope(sm)
+
+    def run(section, key, value):
+        summary = DictS(OrderedDict([(section, DictS(OrderedDict([(key, Const(value))])))]))
+        try:
+            out = I.call(I.lookup("transform_summary", sc), [summary], {})
+        except _Raise as e:
+            return "raise", e
+        except (ShapeError, AnalysisError) as e:
+            raise AnalysisError(f"{where}: cannot be evaluated on a summary whose {section}.{key} is {value!r}: {str(e)[:140]}")
+        # -> attrs of the one section group
+        try:
+            data = out.fields["data"] if isinstance(out, Obj) else None
+            grp = next(iter(data.items.values())) if isinstance(data, DictS) and data.items else None
+            attrs = from_shape(grp.fields["attrs"]) if isinstance(grp, Obj) else None
+        except (Undecided, KeyError, AttributeError):
+            attrs = None
+        if not isinstance(attrs, dict):
+            raise AnalysisError(f"{where}: the result for {section}.{key}={value!r} is not a group with one section group ({out!r:.80}); not decided")
+        return "ok", attrs
+    first = [next(iter(tables[g])) for g in PID_ORDER]
+    last = [list(tables[g])[-1] for g in PID_ORDER]
+    for codes in (first, last):
+        pid = "".join(codes)
+        st, got = run("pds", "ProductID", pid)
+        want = {g: tables[g][c] for g, c in zip(PID_ORDER, codes)}
+        ok = st == "ok" and all(got.get(g) == v for g, v in want.items())
+        chk.require(ok, "C15-L10", where, f"Pds_ProductID={pid!r} surfaces decoded ({len(want)} components)",
+                    f"Pds_ProductID={pid!r}: /summary/product_specification {'raises ' + got.what[:60] if st == 'raise' else 'holds ' + str(got)[:120]}, expected the decoded components {want}", key="summary:pid:valid")
+    good = "".join(first)
+    for bad, why in ((good[:-1] + "X", "unknown orbit direction"), ("QQQ" + good[3:], "unknown observation mode"), (good + "A", "trailing garbage"), (good[:-1], "one character short"), (good.lower(), "lower case"), ("", "empty"),
+                     (good[:4] + "9.9" + good[7:], "unknown level")):
+        st, got = run("pds", "ProductID", bad)
+        ok = st == "raise" and (got.classes is None or "ValueError" in got.classes)
+        chk.require(ok, "C15-L10", where, f"Pds_ProductID={bad!r} ({why}) raises ValueError",
+                    f"Pds_ProductID={bad!r} ({why}): /summary/product_specification {'holds ' + str(got)[:100] if st == 'ok' else 'raises ' + str(got.classes[0])}: an id outside the language is not rejected with ValueError where the tree shows it",
+                    key="summary:pid:outside")
+    st, got = run("scs", "SceneID", "ALOS2012345678-160229")
+    ok = st == "ok" and got.get("mission_name") == "ALOS2" and str(got.get("date", "")).startswith("2016-02-29") and got.get("orbit_accumulation") in (1234, "01234") and got.get("scene_frame") in (5678, "5678")
+    chk.require(ok, "C15-L10", where, "Scs_SceneID='ALOS2012345678-160229' surfaces decoded",
+                f"Scs_SceneID='ALOS2012345678-160229': /summary/scene_specification {'raises ' + got.what[:60] if st == 'raise' else 'holds ' + str(got)[:120]}", key="summary:sid:valid")
+    for bad, why in (("ALOS2012345678-150229", "29 February 2015"), ("ALOS2012345678-16022", "short date"), ("ALOS2012345678_160229", "wrong separator"), ("ALOS2012345678-160229x", "trailing garbage"), ("", "empty")):
+        st, got = run("scs", "SceneID", bad)
+        ok = st == "raise" and (got.classes is None or "ValueError" in got.classes)
+        chk.require(ok, "C15-L10", where, f"Scs_SceneID={bad!r} ({why}) raises ValueError",
+                    f"Scs_SceneID={bad!r} ({why}): /summary/scene_specification {'holds ' + str(got)[:100] if st == 'ok' else 'raises ' + str(got.classes[0])}: an id outside the language is not rejected with ValueError where the tree shows it",
+                    key="summary:sid:outside")
 
 
 def grammar_rules(chk, repo):
